@@ -138,10 +138,6 @@ func (s *SimSCTP) SCTPWrite(b []byte, info *sctp.SndRcvInfo) (int, error) {
 	if s.closed {
 		return 0, net.ErrClosed
 	}
-	var st uint16
-	if info != nil {
-		st = info.Stream
-	}
 	if f := s.wfault; f != nil && f.Kind == "stall-temp" {
 		// the send blocks for a while, then fails with a temporary error after k bytes
 		s.wfault = &WriteFault{Kind: "temp", After: f.After}
@@ -163,6 +159,13 @@ func (s *SimSCTP) SCTPWrite(b []byte, info *sctp.SndRcvInfo) (int, error) {
 		s.e.Fault("sctp-write-stall")
 		<-ch
 		s.mu.Lock()
+	}
+	// the send parameters belong to the call until it returns: they are looked at when the
+	// data actually leaves (after a blocked send has been let through), like a socket that
+	// copies them in when it gets round to the request
+	var st uint16
+	if info != nil {
+		st = info.Stream
 	}
 	if f := s.wfault; f != nil {
 		s.wfault = nil
